@@ -52,6 +52,8 @@ type ev struct {
 	FromOther    bool    `json:"from_other,omitempty"`
 	Sigs         []int32 `json:"sigs,omitempty"`
 	Mtime        int64   `json:"mtime,omitempty"`
+	OldMt        int64   `json:"old_mtime,omitempty"` // mtime of the old entry: 0 = as Mtime, -1 = the entry carries no mtime (0)
+	NewMt        int64   `json:"new_mtime,omitempty"` // mtime of the new entry, same convention
 }
 
 const baseMtime = 1626955200 + 12*3600 // 2021-07-22 12:00 UTC (mid-day: date key is time-zone safe)
@@ -68,23 +70,52 @@ func entryOf(p string, isDir bool, mtime int64) *filer_pb.Entry {
 		Attributes: &filer_pb.FuseAttributes{Mtime: mtime, Crtime: mtime, FileMode: mode}}
 }
 
+// mtimes returns the modification times (seconds) the old and the new entry carry.
+func (e ev) mtimes() (old, new int64) {
+	pick := func(v int64) int64 {
+		switch {
+		case v == -1:
+			return 0
+		case v != 0:
+			return v
+		case e.Mtime != 0:
+			return e.Mtime
+		}
+		return baseMtime
+	}
+	return pick(e.OldMt), pick(e.NewMt)
+}
+
+// dateDir is the date directory of an incremental sink for this event: the day of the
+// modification time of the version that exists after the change (the new entry), for a
+// deletion the day of the deleted entry ("all files are under YYYY-MM-DD directories by
+// modified date", replication.toml scaffold; both front-ends implement this rule).
+func (e ev) dateDir() string {
+	omt, nmt := e.mtimes()
+	if e.New != "" {
+		return dateOf(nmt)
+	}
+	return dateOf(omt)
+}
+
 // toMessage builds the event exactly as filer.NotifyUpdateEvent / logMetaEvent do:
 // Directory is the directory of the old path when there is one, else of the new one;
 // NewParentPath is the directory of the new path.
 func (e ev) toMessage() (key string, resp *filer_pb.SubscribeMetadataResponse) {
 	m := &filer_pb.EventNotification{DeleteChunks: e.DeleteChunks, IsFromOtherCluster: e.FromOther,
 		Signatures: append([]int32(nil), e.Sigs...)}
-	mt := e.Mtime
-	if mt == 0 {
-		mt = baseMtime
+	omt, nmt := e.mtimes()
+	mt := nmt
+	if e.New == "" {
+		mt = omt
 	}
 	full := ""
 	if e.Old != "" {
-		m.OldEntry = entryOf(e.Old, e.IsDir, mt)
+		m.OldEntry = entryOf(e.Old, e.IsDir, omt)
 		full = e.Old
 	}
 	if e.New != "" {
-		m.NewEntry = entryOf(e.New, e.IsDir, mt)
+		m.NewEntry = entryOf(e.New, e.IsDir, nmt)
 		m.NewParentPath, _ = dirName(e.New)
 		if full == "" {
 			full = e.New
@@ -264,7 +295,7 @@ func cutKey(p, src, tgt, date string) string { return path.Join("/", tgt, date, 
 func model(via string, e ev, src, tgt string, found, incr bool, d defects) []call {
 	date := ""
 	if incr {
-		date = dateOf(baseMtime)
+		date = e.dateDir()
 	}
 	oin, nin := d.inside(e.Old, src), d.inside(e.New, src)
 	var ok, nk, np string
@@ -516,10 +547,10 @@ func (w *world) checkEvent(via string, sk sinkKind, src, tgt string, e ev) {
 		// path is inside produces a call.
 		valid := map[string]bool{}
 		if locClass(e.Old, src) == "inside" {
-			valid[mapKey(e.Old, src, tgt, dateOf(baseMtime))] = true
+			valid[mapKey(e.Old, src, tgt, e.dateDir())] = true
 		}
 		if locClass(e.New, src) == "inside" {
-			valid[mapKey(e.New, src, tgt, dateOf(baseMtime))] = true
+			valid[mapKey(e.New, src, tgt, e.dateDir())] = true
 		}
 		ok = true
 		for _, c := range got {
@@ -922,6 +953,24 @@ func main() {
 		}
 		for _, e := range evs {
 			w.checkOrigin(s.src, s.tgt, e)
+		}
+	}
+	// incremental sinks: the same events with old and new versions modified on different
+	// days (both directions) and with entries that carry no modification time
+	day := int64(86400)
+	mtVariants := [][2]int64{{baseMtime, baseMtime + 3*day}, {baseMtime + 3*day, baseMtime}, {-1, baseMtime + 40*day}, {baseMtime, -1}}
+	incr := sinkKinds[2]
+	for _, s := range sts[:2] {
+		for _, via := range []string{"replicate", "genprocess"} {
+			for _, e := range evs {
+				for _, mv := range mtVariants {
+					e2 := e
+					e2.OldMt, e2.NewMt = mv[0], mv[1]
+					w.checkEvent(via, incr, s.src, s.tgt, e2)
+					nSingle++
+					r.Count("incremental_cases_with_differing_or_missing_mtimes", 1)
+				}
+			}
 		}
 	}
 	r.SetExhaustive(true)
